@@ -11,6 +11,12 @@ def main():
     boot.check_repo_import()
     from .ctx import Ctx
 
+    import os as _os
+
+    if _os.environ.get("VERIF_COVER"):
+        from . import cover
+
+        cover.start(_os.environ.get("VERIF_REPO", "/repo"))
     ctx = Ctx(prop, tier, int(seed), int(shard), int(nshards))
     mod = importlib.import_module("vf.props." + prop.lower())
     from .ctx import ShardAbort
@@ -44,6 +50,8 @@ def main():
         ctx.count("graphs.history_uses_before_add_edge", gd.WARM["used"])
         ctx.count("graphs.history_uses_raised", gd.WARM["raised"])
     ctx.dump(out)
+    if _os.environ.get("VERIF_COVER"):
+        cover.dump(out + ".reach")
 
 
 if __name__ == "__main__":
